@@ -308,7 +308,8 @@ def query_all(g, bad, stats):
 def bfs_job(item, tier):
     from .. import bootstrap  # noqa: F401
 
-    _k, gname, prefix, depth, cap = item
+    _k, gname, prefix, depth, cap = item[:5]
+    shard_k, shard_m = (item[5], item[6]) if len(item) > 5 else (0, 1)
     prefix = tuple(tuple(o) for o in prefix)
     out = []
     stats = {"queries": 0, "states_with_offers": 0, "states_offering_virtual": 0,
@@ -331,7 +332,9 @@ def bfs_job(item, tier):
         nxt = []
         for hist in frontier:
             g = build(gname, hist)
-            for op in enabled(g):
+            for oi, op in enumerate(enabled(g)):
+                if d == len(prefix) and oi % shard_m != shard_k:
+                    continue  # another work item explores this successor's subtree
                 h2 = hist + (op,)
                 bad = mkbad(h2)
                 try:
@@ -389,8 +392,10 @@ def confirm_job(case, tier):
 
 
 def items(tier):
-    depth = 7 if tier == "quick" else 9
-    cap = 1500 if tier == "quick" else 20000
+    # quick: exhaustive to depth 6 (no state cap is reached); thorough: depth 8
+    # exhaustive for the small graphs, capped (and reported) for the large ones
+    depth = 6 if tier == "quick" else 8
+    cap = 60000 if tier == "quick" else 150000
     it = []
     for gname, nodes in GRAPHS.items():
         srcs = [n for n, _c, _k in nodes
@@ -399,15 +404,19 @@ def items(tier):
         for s in srcs:
             firsts += [("rel", s), ("sched", s, 0), ("sched", s, 2), ("cancel", s)]
         firsts.append(("tick",))
+        shards = 4 if len(nodes) >= 4 else 1
+        gdepth = depth if len(nodes) <= 4 else depth - 1  # 5-node graphs: one less
         for f in firsts:
             # second-level split on the follow-up op keeps the items even
-            it.append(("bfs", gname, [list(f)], depth, cap))
+            for k in range(shards):
+                it.append(("bfs", gname, [list(f)], gdepth, cap, k, shards))
         # start from a non-initial state too: every source released, placed for now
         # and running (what a greedy run looks like after its first invocation); the
         # search continues from there to the same relative depth
         pre = [["rel", s_] for s_ in srcs] + [["sched", s_, 0] for s_ in srcs] + \
               [["start", s_] for s_ in srcs]
-        it.append(("bfs", gname, pre, len(pre) + depth - 2, cap * 2))
+        for k in range(shards):
+            it.append(("bfs", gname, pre, len(pre) + depth - 2, cap, k, shards))
     return it
 
 
@@ -425,7 +434,11 @@ def main(tier, seed):
              "release_taskgraphs x lookahead {0,1,3,50} = 96 frontier queries judged",
         assumptions=["preemption offers are judged in E1 runs only (they need a live "
                      "cluster)", "states de-duplicated on (time, per-task state/times/"
-                     "probability); per-item state cap reported in outcome_classes",
+                     "probability) within a work item; depth %d from the initial state "
+                     "(one less for the two 5-node graphs), "
+                     "%d operations beyond 'all sources running'; a per-item state cap "
+                     "hit is counted in outcome_classes and clears `exhaustive`"
+                     % ((6, 4) if tier == "quick" else (8, 6)),
                      "the run-level clauses (no premature offer to greedy policies, "
                      "release on completion) are also enforced by the E1 monitor in "
                      "every C02/C05/C06 world"],
